@@ -115,7 +115,10 @@ impl Middleware for Redirect {
                         }
                         Err(e) => match e {
                             http_types::url::ParseError::RelativeUrlWithoutBase => {
-                                base_url.join(location.last().as_str())?
+                                // a relative location is relative to the URL it was received
+                                // from, which then becomes the base for the next one
+                                base_url = base_url.join(location.last().as_str())?;
+                                base_url.clone()
                             }
                             e => return Err(e.into()),
                         },
